@@ -58,6 +58,31 @@ theorem resolve_perm_needs_key :
    [⟨0, 0, ⟨[2], [], [], []⟩⟩, ⟨0, 0, ⟨[1], [], [], []⟩⟩],
    List.Perm.swap .., by decide⟩
 
+/-- `resolve_perm` for an arbitrary sort key (a list of key components, compared like a Python
+tuple): the combined pipeline does not depend on the order in which the pipelines are named,
+provided the key identifies the pipeline among those named.  `resolve_perm` is the instance
+`ks = stdKey = [priority, spec]` (`resolveBy_stdKey`); `Oblig/C14.lean` instantiates this at the key
+regenerated from `ProcessingPipelineResolver.resolve`. -/
+theorem resolveBy_perm (ks : List KeyComp) (l1 l2 : List Spec) (hp : l1.Perm l2)
+    (hkey : ∀ a ∈ l1, ∀ b ∈ l1, (∀ k ∈ ks, k.get a = k.get b) → a = b) :
+    resolveBy ks l1 = resolveBy ks l2 := by
+  rw [resolveBy, resolveBy, sortSpecsBy_eq_of_perm ks l1 l2 hp hkey]
+
+theorem resolveBy_stdKey (l : List Spec) : resolveBy stdKey l = resolve l := resolveBy_std l
+
+/-- the old statement as a corollary of the generalised one -/
+theorem resolve_perm_of_resolveBy (l1 l2 : List Spec) (hp : l1.Perm l2)
+    (hkey : ∀ a ∈ l1, ∀ b ∈ l1, a.priority = b.priority → a.name = b.name → a = b) :
+    resolve l1 = resolve l2 := by
+  rw [← resolveBy_stdKey, ← resolveBy_stdKey]
+  exact resolveBy_perm stdKey l1 l2 hp
+    (fun a ha b hb h => hkey a ha b hb (h .priority (by decide)) (h .spec (by decide)))
+
+/-- the key matters: with the priority alone as key, two pipelines of equal priority are summed in
+the order in which they were named -/
+example : resolveBy [.priority] [⟨0, 1, ⟨[1], [], [], []⟩⟩, ⟨0, 0, ⟨[2], [], [], []⟩⟩] ≠
+    resolveBy [.priority] [⟨0, 0, ⟨[2], [], [], []⟩⟩, ⟨0, 1, ⟨[1], [], [], []⟩⟩] := by decide
+
 /-! ## 4. the resolved pipeline lists the pipelines' parts in sorted order -/
 
 theorem resolve_order (l : List Spec) :
@@ -74,6 +99,22 @@ theorem backend_order (b u f : P) :
     (initPipeline b u f).items = b.items ++ u.items ++ f.items ∧
     (initPipeline b u f).post = b.post ++ u.post ++ f.post ∧
     (initPipeline b u f).fins = b.fins ++ u.fins ++ f.fins := ⟨rfl, rfl, rfl⟩
+
+/-- `backend_order` for an arbitrary order of the operands of `+` in `init_processing_pipeline`;
+`backend_order` is the instance `order = stdInitOrder` (`initPipelineBy_stdOrder`) -/
+theorem initBy_order (order : List Slot) (b u f : P) :
+    (initPipelineBy order b u f).items = order.flatMap (fun s => (s.pick b u f).items) ∧
+    (initPipelineBy order b u f).post = order.flatMap (fun s => (s.pick b u f).post) ∧
+    (initPipelineBy order b u f).fins = order.flatMap (fun s => (s.pick b u f).fins) ∧
+    (initPipelineBy order b u f).vars = order.flatMap (fun s => (s.pick b u f).vars) := by
+  rw [initPipelineBy_eq]
+  simp [sumP, List.flatMap_map]
+
+theorem initPipelineBy_stdOrder (b u f : P) :
+    initPipelineBy stdInitOrder b u f = initPipeline b u f := initPipelineBy_std b u f
+
+/-- `+` with the per-argument choices of `__add__` as data; `P.add` is the instance `AddShape.std` -/
+theorem addBy_stdShape : P.addBy AddShape.std = P.add := addBy_std
 
 theorem init_vars (b u f : P) (k : Nat) :
     lookupVar (initPipeline b u f).vars k =
